@@ -6,6 +6,8 @@ use crate::resolve::*;
 use crate::walk::*;
 use std::collections::BTreeMap;
 
+pub const CMSG_MAX_BODY: usize = 0x2800;
+
 #[derive(Debug, Clone, Copy, PartialEq, Eq, Hash, PartialOrd, Ord)]
 pub enum Direction {
     /// sent by the client (cmsg, clogin, msg)
@@ -189,6 +191,11 @@ pub fn encode_with(u: &Universe, e: &Entry, tape: &[u8], forced: &BTreeMap<Strin
     let features = std::mem::take(&mut w.features);
     let elseif_flag_taken = std::mem::take(&mut w.elseif_flag_taken);
     let body = w.into_body();
+    // client messages: the documented largest buffer a client message may have (0x2800), compiled into every
+    // reader of a variable-sized CMSG as its upper size bound
+    if matches!(e.ns, Ns::World(_)) && e.dir == Direction::Client && body.len() > CMSG_MAX_BODY {
+        return Err(EncodeError::NotCanonical(format!("client message body of {} bytes exceeds the documented 0x2800 limit", body.len())));
+    }
     let Some(mut frame) = header(e, body.len()) else {
         return Err(EncodeError::NotCanonical(format!("body of {} bytes does not fit the header form", body.len())));
     };
